@@ -2,8 +2,11 @@
 //!
 //! Delivery dimension: any fragmentation of the message over `input` calls, result or
 //! raw_result into a dirty buffer. Oracle: H((K' ^ opad) || H((K' ^ ipad) || m)) composed in the
-//! harness from the library's ONE-CALL hashing function and the block size written down from
-//! the standards (not read from the object); output_bytes() must equal the digest size.
+//! harness with H = the STANDARD digest (independent implementations in model::digests, written
+//! from FIPS 180-4 / FIPS 202 / RIPEMD-160 / RFC 7693) and the block size written down from the
+//! standards (not read from the object); output_bytes() must equal the digest size. A mismatch
+//! report says whether the library's own one-call hash would have explained the tag (then the
+//! digest itself deviates from the standard) or not (then the HMAC construction does).
 
 use crate::guard::guarded;
 use crate::rng::{data, Aligned, Rng};
@@ -18,8 +21,16 @@ const KINDS: &[&str] = &["input", "result"];
 pub struct HmacSplit;
 
 pub fn rfc2104(info: &DigestInfo, outlen: usize, key: &[u8], msg: &[u8]) -> Vec<u8> {
+    rfc2104_over(info, key, msg, &|m: &[u8]| crate::model::digests::standard(info.hashing, outlen, m))
+}
+
+/// the same composition over the library's own one-call hash (diagnosis only: who is to blame for a mismatch)
+pub fn rfc2104_over_library_hash(info: &DigestInfo, outlen: usize, key: &[u8], msg: &[u8]) -> Vec<u8> {
+    rfc2104_over(info, key, msg, &|m: &[u8]| hashctx::oneshot(info.hashing, outlen, &[], m))
+}
+
+fn rfc2104_over(info: &DigestInfo, key: &[u8], msg: &[u8], h: &dyn Fn(&[u8]) -> Vec<u8>) -> Vec<u8> {
     let b = info.spec_block;
-    let h = |m: &[u8]| hashctx::oneshot(info.hashing, outlen, &[], m);
     let mut k = vec![0u8; b];
     if key.len() > b {
         let hk = h(key);
@@ -179,7 +190,11 @@ impl Scenario for HmacSplit {
                     obs.out(&got);
                     let want = rfc2104(&info, outlen, &key, &log);
                     if got != want {
-                        return Err(Violation::bytes("tag-mismatch", i, &want, &got, format!("hmac_{}: key {} bytes, message {} bytes vs RFC 2104 composition over the one-call hash", name, klen, log.len())));
+                        let blame = match guarded(|| rfc2104_over_library_hash(&info, outlen, &key, &log)) {
+                            Ok(l) if l == got => "the library's one-call hash explains the tag: the digest itself deviates from the standard",
+                            _ => "not explained by the library's one-call hash either: the HMAC construction deviates",
+                        };
+                        return Err(Violation::bytes("tag-mismatch", i, &want, &got, format!("hmac_{}: key {} bytes, message {} bytes vs RFC 2104 over the standard digest ({})", name, klen, log.len(), blame)));
                     }
                 }
                 _ => {}
@@ -191,7 +206,11 @@ impl Scenario for HmacSplit {
             obs.out(&got);
             let want = rfc2104(&info, outlen, &key, &log);
             if got != want {
-                return Err(Violation::bytes("tag-mismatch", n, &want, &got, format!("hmac_{}: key {} bytes, message {} bytes vs RFC 2104 composition over the one-call hash", name, klen, log.len())));
+                let blame = match guarded(|| rfc2104_over_library_hash(&info, outlen, &key, &log)) {
+                    Ok(l) if l == got => "the library's one-call hash explains the tag: the digest itself deviates from the standard",
+                    _ => "not explained by the library's one-call hash either: the HMAC construction deviates",
+                };
+                return Err(Violation::bytes("tag-mismatch", n, &want, &got, format!("hmac_{}: key {} bytes, message {} bytes vs RFC 2104 over the standard digest ({})", name, klen, log.len(), blame)));
             }
         }
         Ok(())
